@@ -126,6 +126,14 @@ def e2e_suite(ctx):
                 continue
             xs = c01.zone_inputs(prob, z)
             tp = recs[k].temp_pinch
+            # the two places the property names must tell the same story: the serialised record and the zone's own target object
+            et = z.targets[k]
+            ser = (tp.cold_temp, tp.hot_temp if tp.hot_temp is not None else tp.cold_temp)
+            own = (getattr(et, "cold_pinch", None), getattr(et, "hot_pinch", None))
+            if ser != own:
+                ctx.fail("pinch-record-disagrees", f"record {k}: TargetResults.temp_pinch {ser} differs from EnergyTarget cold/hot pinch {own}",
+                         suite="e2e_pinch", input=dict(problem=prob, record=k), impl_output=dict(serialised=ser, energy_target=own),
+                         predicate="temp_pinch = (cold_pinch, hot_pinch)")
             cands = sorted({float(t) for s in list(z.hot_streams) + list(z.cold_streams) + list(z.hot_utilities) + list(z.cold_utilities)
                             for t in (s.t_min_star, s.t_max_star)}, reverse=True)
             cands = [t for t in cands if abs(t) < 1e8]          # default-utility sentinels are not process temperatures
